@@ -40,7 +40,8 @@ SRC = ("module conf\n  !! a module\n  integer :: a\ncontains\n  subroutine run()
        "  subroutine helper()\n  end subroutine helper\nend module conf\n")
 SRC2 = "program main\n  use conf\n  call run()\nend program main\n"
 PLACEMENTS = ["default", "sibling", "nested", "absolute", "symlink", "dotdot", "inside-src", "src-equals-output",
-              "src-under-output", "graph-outside", "src-equals-output-via-symlink", "src-under-output-via-symlink"]
+              "src-under-output", "graph-outside", "src-equals-output-via-symlink", "src-under-output-via-symlink",
+              "output-is-a-file"]
 
 
 CWDS = ["proj", "proj", "root", "sibling"]     # where FORD is started from (FORD itself never changes directory)
@@ -109,6 +110,10 @@ def gen_case(ch: Chooser, excl=(), placement=None, cwd=None):
         symlinks.append(["proj/current", "code"])
         opts["src_dir"] = "./code/src"
         opts["output_dir"] = ch.choice(["./current", "../proj/current", "<ROOT>/proj/current", "<ROOT>/sibling/../proj/current"])
+        refuse = True
+    elif placement == "output-is-a-file":
+        # the output "directory" names an existing file (a source file, or any other file): nothing may be deleted
+        opts["output_dir"] = ch.choice(["./src/conf.f90", "./other/data.bin", "./docx"])
         refuse = True
     elif placement == "graph-outside":
         allowed = ["proj/doc", "graphs_here"]
